@@ -237,14 +237,18 @@ def rule_LV4(ctx, rep):
         return
     w = waits[0]
     _check_wait(rep, 'LV4', fn, w)
-    conds = [(norm(i.test), br) for i, br in enclosing_ifs(w, pm, stop=fn.node)]
-    early = [s for s in iter_nodes(fn.node) if isinstance(s, ast.Return) and astq.position(s) < astq.position(w)]
-    okc = all('no_async' in t and br == 'body' and t.startswith('not ') for t, br in conds)
-    oke = all(any('no_barrier' in norm(i.test) and br == 'body' for i, br in enclosing_ifs(e, pm, stop=fn.node)) for e in early)
-    if okc and oke:
+    # the wait is reached unless barriers are disabled or evaluation is synchronous: its path condition (nesting, early returns
+    # and polarity alike) must be a conjunction of negated option atoms only
+    from . import cond
+    cx = cond.context(fn, w, pm)
+    ats = cond.atoms_of(cx)
+    only_options = all('no_async' in a or 'no_barrier' in a for a in ats)
+    all_off = {a: False for a in ats}
+    if only_options and cond.evalf(cx, all_off) and not any(
+            cond.evalf(cx, {**all_off, a: True}) for a in ats):
         rep.ok('LV4', fn, w.test, 'the wait is skipped only when barriers are disabled or evaluation is synchronous')
     else:
-        rep.bad('LV4', fn, w.test, f'the barrier wait is governed by {conds} / early returns not tied to no_barrier: an enabled barrier can return '
+        rep.bad('LV4', fn, w.test, f'the barrier wait is governed by `{cond.fmt(cx)}`, not only by the no_barrier / no_async options: an enabled barrier can return '
                 'while coroutines started earlier are still running')
     sh = model.func('runtime::Runtime.shutdown')
     sw = [x for x in _wait_loop(sh.node)]
